@@ -75,7 +75,7 @@ pub fn run_miri_stage(st: &mut Stats, mode: &str, arg: u64, seeds: Option<(u64, 
             lines += 1;
         }
         if w.first() == Some(&"MISMATCH") {
-            st.violation(0, format!("miri:{mode}:pooled_result_differs:{}", w.get(1).unwrap_or(&"")), format!("under Miri: {l}"), serde_json::json!(null));
+            st.violation(0, format!("miri:{mode}:{}:{}", if mode == "script" { "script_tree_differs" } else { "pooled_result_differs" }, w.get(1).unwrap_or(&"")), format!("under Miri: {l}"), serde_json::json!(null));
         }
     }
     st.add(&format!("miri_{mode}_checksum_lines"), lines);
